@@ -26,6 +26,7 @@ type Ctx struct {
 	cacheNFL   *readerLayout
 	ownerMap   map[string]string
 	fb         foldBounds
+	pwCache    map[*ssa.Parameter]string
 }
 
 // Property describes one property check.
